@@ -9,7 +9,7 @@ ASSUMPTIONS = [
     "add_new_frame: stack.len() + max_stack_size does not wrap u32 (needs >= 2^32 stack slots)",
     "instruction operands <= i32::MAX (operand_fits) so that the i32 stack effect is exact",
     "alloc_ignore_limit call sites are deliberate escape hatches and are not verified",
-    "toplevel unit: the interrupt flag (an atomic) is a pure read for the duration of one loop iteration; the rest of the loop body is replaced by `Ok(())`",
+    "toplevel unit: nobody else writes the interrupt flag during one loop iteration (that the poll itself does not is the obligation interrupted_is_a_pure_poll); the rest of the loop body is replaced by `Ok(())`",
     "termination not proved by Kani",
 ]
 NOT_UNDER_CONTRACT = ["that one pass of the frame loop runs for a bounded time (an extern function may run for ever)", "native-stack depth of compiler/typechecker recursion",
@@ -42,6 +42,8 @@ def obligations(tier):
              clause="the collector of a spawned thread gets its spawner's memory limit: spawning is no way around the limit"),
         dict(engine="verus", unit="newthread", function="Thread::new_thread::construct(C07)", name="C07/thread/new_thread_inherits_stack_limit", source="vm/src/thread.rs::Thread::new_thread (up to the allocation of the new thread)",
              clause="a spawned thread runs under the stack limit of the thread that spawned it"),
+        dict(engine="verus", unit="toplevel", function="Thread::interrupted", name="C07/thread/interrupted_is_a_pure_poll", source="vm/src/thread.rs::Thread::interrupted",
+             clause="the poll returns the interrupt flag and does not write it (frame condition: the flag's write operations have a precondition a poll cannot meet): the request stays visible to every later poll"),
         dict(engine="verus", unit="toplevel", function="execute::loop_head", name="C07/thread/execute_loop_polls_interrupt", source="vm/src/thread.rs::OwnedContext::execute (loop body up to the dispatch on the frame state)",
              clause="every pass through the frame loop -- every call, tail call and return -- polls the interrupt flag before dispatching: requested => Err(Interrupted), not requested => the dispatch is reached"),
         v("stack", "ExecuteContext::exit_scope", "leaving a scope pops exactly the top frame, never a locked one", "vm/src/thread.rs::ExecuteContext::exit_scope"),
